@@ -282,13 +282,7 @@ def one(ctx, gen, i):
         return
     if rng.random() < 0.5:
         # what an imported document carries and a generated one lacks: text after elements, and a default namespace beside prefixes
-        nodes = treegen.all_nodes(root)
-        for n in rng.sample(nodes, min(len(nodes), rng.choice([2, 6, 20]))):
-            if n.parent is not None:
-                n.tail = rng.choice(["\n    ", " text after the element ", "\xa0"])
-        if rng.random() < 0.6:
-            root.add_namespace(None, "https://eml.ecoinformatics.org/eml-2.2.0")
-            root.add_namespace("stmml", "http://www.xml-cml.org/schema/stmml-1.2")
+        treegen.decorate_like_import(rng, root)
         ctx.count("trees_decorated_like_imported_documents")
         log.append("tails+default-namespace")
     mode = rng.random()
